@@ -562,7 +562,20 @@ func makeOverlay(goroot string) string {
 		}
 		return string(b)
 	}
-	sel, rnd, tim, prc := read("runtime/select.go"), read("runtime/rand.go"), read("runtime/time.go"), read("runtime/proc.go")
+	sel, rnd, tim, prc, rt2 := read("runtime/select.go"), read("runtime/rand.go"), read("runtime/time.go"), read("runtime/proc.go"), read("runtime/runtime2.go")
+	// a goroutine waiting for a sync.Mutex / sync.RWMutex counts as durably blocked inside the
+	// bubble.  Stock synctest does not count it (the holder might live outside the bubble);
+	// in the worker everything that shares a lock lives inside.  Without this, a goroutine
+	// waiting for a lock whose holder is parked by the controller keeps the bubble from
+	// ever becoming quiescent (the simulation hangs), and a real lock cycle in the code
+	// under test hangs the worker instead of showing up as goroutines that never end.
+	const rt2Old = "\twaitReasonSyncCondWait:          true,\n"
+	// sync.Mutex switches to starvation mode (direct hand-off to the longest waiter) when a
+	// waiter has waited for more than 1 ms of REAL time (runtime_nanotime, not the bubble's
+	// clock): which goroutine gets a contended lock next then depends on how fast the machine
+	// is.  Both orders are legal; the worker never enters starvation mode.
+	mtx := read("internal/sync/mutex.go")
+	const mtxOld = "\tstarvationThresholdNs = 1e6\n"
 	const selOld = "j := cheaprandn(uint32(norder + 1))"
 	const initOld = "\tglobalRand.state.Init(*seed)\n"
 	const randOld = "func rand() uint64 {\n"
@@ -575,8 +588,12 @@ func makeOverlay(goroot string) string {
 	// load of the machine.  The worker has one P and the controller waits for quiescence
 	// anyway, so the slice is made practically infinite there.
 	const prcOld = "const forcePreemptNS = 10 * 1000 * 1000 // 10ms"
-	if strings.Count(sel, selOld) != 1 || strings.Count(rnd, initOld) != 1 || strings.Count(rnd, randOld) != 1 || strings.Count(tim, timOld) != 1 || strings.Count(prc, prcOld) != 1 {
+	if strings.Count(sel, selOld) != 1 || strings.Count(rnd, initOld) != 1 || strings.Count(rnd, randOld) != 1 || strings.Count(tim, timOld) != 1 || strings.Count(prc, prcOld) != 1 || strings.Count(rt2, rt2Old) != 1 || strings.Count(mtx, mtxOld) != 1 {
 		return ""
+	}
+	mtx = strings.Replace(mtx, mtxOld, "\tstarvationThresholdNs = 1 << 62 // /verif: no real-time dependent lock hand-off in the simulation worker\n", 1)
+	if os.Getenv("VERIF_NO_MUTEX_DURABLE") == "" {
+		rt2 = strings.Replace(rt2, rt2Old, rt2Old+"\twaitReasonSyncMutexLock:         true,\n\twaitReasonSyncRWMutexRLock:      true,\n\twaitReasonSyncRWMutexLock:       true,\n", 1)
 	}
 	prc = strings.Replace(prc, prcOld, "const forcePreemptNS = 1 << 62 // /verif: no time-sliced preemption in the simulation worker", 1)
 	tim = strings.Replace(tim, timOld, "\t\t\tt.rand = verifTimerRand()\n", 1)
@@ -623,14 +640,18 @@ func verifSelectRandn(n uint32) uint32 {
 	return cheaprandn(n)
 }
 `
-	sum := sha256.Sum256([]byte(sel + rnd + tim + prc))
+	sum := sha256.Sum256([]byte(sel + rnd + tim + prc + rt2 + mtx))
 	dir := filepath.Join(scratchRoot(), "overlay-"+hex.EncodeToString(sum[:6]))
 	os.MkdirAll(dir, 0o755)
 	os.WriteFile(filepath.Join(dir, "select.go"), []byte(sel), 0o644)
 	os.WriteFile(filepath.Join(dir, "rand.go"), []byte(rnd), 0o644)
 	os.WriteFile(filepath.Join(dir, "time.go"), []byte(tim), 0o644)
 	os.WriteFile(filepath.Join(dir, "proc.go"), []byte(prc), 0o644)
-	ov := fmt.Sprintf(`{"Replace": {%q: %q, %q: %q, %q: %q, %q: %q}}`,
+	os.WriteFile(filepath.Join(dir, "runtime2.go"), []byte(rt2), 0o644)
+	os.WriteFile(filepath.Join(dir, "mutex.go"), []byte(mtx), 0o644)
+	ov := fmt.Sprintf(`{"Replace": {%q: %q, %q: %q, %q: %q, %q: %q, %q: %q, %q: %q}}`,
+		filepath.Join(goroot, "src", "internal/sync/mutex.go"), filepath.Join(dir, "mutex.go"),
+		filepath.Join(goroot, "src", "runtime/runtime2.go"), filepath.Join(dir, "runtime2.go"),
 		filepath.Join(goroot, "src", "runtime/select.go"), filepath.Join(dir, "select.go"),
 		filepath.Join(goroot, "src", "runtime/rand.go"), filepath.Join(dir, "rand.go"),
 		filepath.Join(goroot, "src", "runtime/time.go"), filepath.Join(dir, "time.go"),
